@@ -48,20 +48,31 @@ def _run_chunk(args):
     faulthandler.dump_traceback_later(600, exit=True)
     try:
         for seed in seeds:
-            plan = mod.gen(seed, tier, extra)
+            res = None
+            for _attempt in range(3):
+                try:
+                    plan = mod.gen(seed, tier, extra)
+                    GUARD.arm()
+                    try:
+                        if getattr(mod, 'ISOLATE', False):
+                            res = run_isolated(mod, plan, stats)
+                        else:
+                            res = mod.run(plan, stats)
+                    except SimWatchdog:
+                        res = RunResult([Violation(mod.PROP, 'live', 'wall-clock-hang',
+                                                   {'seed': seed, 'note': f'run spun for {GUARD.LIMIT_S}s of wall time '
+                                                    'without reaching a seam (hang guard); not minimised'})], 'hang')
+                    finally:
+                        GUARD.disarm()
+                    break
+                except SimWatchdog:
+                    # a late delivery of the guard's asynchronous exception (it fired just before disarm): the
+                    # run it was meant for is over; repeat this seed
+                    res = None
+                    continue
+            if res is None:
+                raise HarnessError(f'seed {seed}: stray watchdog exceptions')
             stats.c['runs'] += 1
-            GUARD.arm()
-            try:
-                if getattr(mod, 'ISOLATE', False):
-                    res = run_isolated(mod, plan, stats)
-                else:
-                    res = mod.run(plan, stats)
-            except SimWatchdog:
-                res = RunResult([Violation(mod.PROP, 'live', 'wall-clock-hang',
-                                           {'seed': seed, 'note': f'run spun for {GUARD.LIMIT_S}s of wall time without '
-                                            'reaching a seam (hang guard); not minimised'})], 'hang')
-            finally:
-                GUARD.disarm()
             if want_digest:
                 digests[seed] = res.digest
             for v in res.violations:
@@ -363,7 +374,9 @@ def run_batch(mod, tier, base_seed, workers=None):
                 tag = futs[fut]
                 try:
                     swire, viols, digs, _secs = fut.result()
-                except Exception as exc:  # pylint: disable=broad-except
+                except BaseException as exc:  # pylint: disable=broad-except
+                    if isinstance(exc, KeyboardInterrupt):
+                        raise
                     harness_errors.append(f'{tag}: {type(exc).__name__}: {exc}')
                     continue
                 if tag == 'canary-a':
